@@ -422,19 +422,11 @@ def o4_early(chk, repo):
 
 
 def guarded_by_none(stmt, var):
-    child = stmt
-    for p in parents(stmt):
-        if isinstance(p, ast.If):
-            t = p.test
-            if match(f"{var} is None", t) is not None and child in p.body:
-                return True
-            if match(f"{var} is not None", t) is not None and \
-                    child in p.orelse:
-                return True
-        if isinstance(p, FUNC):
-            break
-        child = p
-    return False
+    """is the statement only reached when `var is None` (nesting, early
+    exits and negations all count)"""
+    facts = path_facts(stmt)
+    return has_fact(facts, f"{var} is None", True) or has_fact(
+        facts, f"{var} is not None", False)
 
 
 # ------------------------------------------------------------------ R24.2
